@@ -120,6 +120,36 @@ macro_rules! impl_facade {
     }
 }
 
+/// Outermost layer of the calls that create a descriptor: the number the kernel
+/// hands out belongs to a new socket, so limits still cached for the number's
+/// previous owner (closed through a call the runtime never saw) are forgotten.
+macro_rules! impl_new_fd {
+    (
+        $struct_name:ident, $trait_name: ident,
+        $syscall: ident($($arg: ident : $arg_type: ty),*$(,)?) -> $result: ty
+    ) => {
+        #[repr(C)]
+        #[derive(Debug, Default)]
+        struct $struct_name<I: $trait_name> {
+            inner: I,
+        }
+
+        impl<I: $trait_name> $trait_name for $struct_name<I> {
+            extern "C" fn $syscall(
+                &self,
+                fn_ptr: Option<&extern "C" fn($($arg_type),*) -> $result>,
+                $($arg: $arg_type),*
+            ) -> $result {
+                let fd = self.inner.$syscall(fn_ptr, $($arg, )*);
+                if fd >= 0 {
+                    $crate::syscall::unix::clean_time_limit(fd);
+                }
+                fd
+            }
+        }
+    }
+}
+
 macro_rules! impl_io_uring {
     (
         $struct_name:ident, $trait_name: ident,
